@@ -43,21 +43,31 @@ type Frame struct {
 }
 
 var buildMu sync.Mutex
+var builtPkgs sync.Map // *ssa.Package -> true once Build() has RETURNED
 
+// ensureBuilt builds the SSA of fn's package on first use.  The fast path must not look at
+// fn.Blocks: while one worker is inside Package.Build the blocks of its functions exist but are
+// still being rewritten (nil instructions), and another worker must not start executing them.
 func ensureBuilt(fn *ssa.Function) {
-	if fn.Blocks != nil {
+	pkg := fn.Pkg
+	if pkg == nil {
+		if o := fn.Origin(); o != nil {
+			pkg = o.Pkg
+		}
+	}
+	if pkg == nil {
+		return
+	}
+	if _, ok := builtPkgs.Load(pkg); ok {
 		return
 	}
 	buildMu.Lock()
 	defer buildMu.Unlock()
-	if fn.Blocks != nil {
+	if _, ok := builtPkgs.Load(pkg); ok {
 		return
 	}
-	if fn.Pkg != nil {
-		fn.Pkg.Build()
-	} else if o := fn.Origin(); o != nil && o.Pkg != nil {
-		o.Pkg.Build()
-	}
+	pkg.Build()
+	builtPkgs.Store(pkg, true)
 }
 
 func (p *Path) unsup(format string, a ...interface{}) {
